@@ -30,6 +30,7 @@ func c01(c *Ctx) {
 	c01entry(c)
 	c01wrappers(c)
 	c01users(c)
+	c01promiseUsers(c)
 	// the rolling window whose sums the decision is computed from (same structure rules as C16.R5)
 	c16windowAs(c, "C01.R7")
 	c01registry(c)
